@@ -182,29 +182,92 @@ local _lua_max_time = 60
 -- Lua sandbox.
 local _lua_current_max_time = nil
 
--- Reduces Lua timeout (used only for testing).  This is exposed to the
--- sandbox and may be called from hostile code.
+-- Absolute time (os.time()) after which Lua code of the current #invoke is
+-- aborted; nil when no invocation has been started yet.
+local _lua_deadline = nil
+
+local function _lua_deadline_passed()
+    return _lua_deadline ~= nil and os.time() > _lua_deadline
+end
+
+-- The count hook.  It is the same function for every Lua thread and is inert
+-- unless an invocation is in progress (the environment stack is non-empty),
+-- so it never needs to be removed.
+local function _lua_timeout_hook()
+    if _lua_deadline_passed() and _python_top_env() ~= nil then
+        error("Lua timeout error")
+    end
+end
+
+-- Starts the clock for a top-level #invoke.  This is exposed to the sandbox
+-- and may be called from hostile code: it only has an effect when called
+-- before the environment of the invocation has been pushed, i.e., not from
+-- module code and not from nested invocations (which run under the limit of
+-- the outermost one).
 local function _lua_set_timeout(timeout)
+    if _python_top_env() ~= nil then
+        return
+    end
     if timeout ~= nil and timeout > 0.01 and timeout < _lua_max_time then
         _lua_current_max_time = timeout
     else
         _lua_current_max_time = _lua_max_time
     end
-    local start_time = os.time()
-    debug.sethook(
-        function()
-            if os.time() > start_time + _lua_current_max_time then
-                error("Lua timeout error")
-            end
-        end,
-        "",
-        100000
-    )
+    _lua_deadline = os.time() + _lua_current_max_time
+    debug.sethook(_lua_timeout_hook, "", 100000)
 end
 
+-- Kept for compatibility; the hook is inert outside invocations.
 local function _lua_clear_timeout_hook()
-    debug.sethook()
 end
+
+-- Protected calls available to modules must not swallow the timeout: once
+-- the deadline has passed, a caught error is raised again.
+local function _lua_reraise_timeout(ok, ...)
+    if not ok and _lua_deadline_passed() and _python_top_env() ~= nil then
+        error("Lua timeout error", 0)
+    end
+    return ok, ...
+end
+
+local function _sandbox_pcall(f, ...)
+    return _lua_reraise_timeout(pcall(f, ...))
+end
+
+local function _sandbox_xpcall(f, handler)
+    return _lua_reraise_timeout(xpcall(f, handler))
+end
+
+-- The debug hook is per Lua thread: arm it in coroutines created by modules.
+local _sandbox_coroutine = {}
+for k, v in pairs(coroutine) do
+    _sandbox_coroutine[k] = v
+end
+
+function _sandbox_coroutine.create(f)
+    local co = coroutine.create(f)
+    debug.sethook(co, _lua_timeout_hook, "", 100000)
+    return co
+end
+
+function _sandbox_coroutine.resume(co, ...)
+    return _lua_reraise_timeout(coroutine.resume(co, ...))
+end
+
+function _sandbox_coroutine.wrap(f)
+    local co = _sandbox_coroutine.create(f)
+    local function finish(ok, ...)
+        if not ok then
+            error((...), 0)
+        end
+        return ...
+    end
+    return function(...)
+        return finish(coroutine.resume(co, ...))
+    end
+end
+
+package.loaded["coroutine"] = _sandbox_coroutine
 
 -- Wiktionary uses a Module named "debug".  Force it to be loaded by
 -- require() when requested.
@@ -421,7 +484,7 @@ local function _lua_reset_env()
     env["_orig_next"] = _orig_next
     env["os"] = new_os
     env["pairs"] = _orig_pairs
-    env["pcall"] = _orig_pcall
+    env["pcall"] = _sandbox_pcall
     env["print"] = _orig_print
     env["rawequal"] = _orig_rawequal
     env["rawget"] = _orig_rawget
@@ -435,7 +498,7 @@ local function _lua_reset_env()
     env["tonumber"] = _orig_tonumber
     env["type"] = _orig_type
     env["unpack"] = _orig_unpack
-    env["xpcall"] = _orig_xpcall
+    env["xpcall"] = _sandbox_xpcall
     env["_lua_set_python_loader"] = _lua_set_python_loader
     env["_lua_set_timeout"] = _lua_set_timeout
     env["_lua_clear_timeout_hook"] = _lua_clear_timeout_hook
